@@ -275,6 +275,6 @@ func init() {
 		Rule: "seeded sequences (3-8 ops, thorough up to 14) over {SetTx valid/invalid/dry-run/device-error with timeout 1/5/30/600 s, Confirm(id), Cancel(id) with matching/stale/unknown ids, Wait(d) around the deadline} on the fake clock; every call carries a 2 s simulated RPC deadline. Oracle: transaction-slot model (exclusive, id-scoped, wrong ids have no effect and the timer still fires, rollback traffic exactly once at expiry/cancel) and a final liveness probe: after waiting past the timeout with no client action a valid TransactionSet is accepted. Non-trivial = a SetTx or wrong-id call while a transaction is open; distinct = sequence signature.",
 		Real: realCore, Stub: stubCore,
 		RequiredProbes: []string{"expiry", "set-while-open", "wrong-id-Confirm", "wrong-id-Cancel"},
-		QuickSeconds: 30, ThoroughSeconds: 480,
+		QuickSeconds:   30, ThoroughSeconds: 480,
 	})
 }
